@@ -136,6 +136,8 @@ def run(prop, monitor_cls, seed=0, index=0, n_ops=10, ops=None, header=None, dig
         res.header = header
         res.topo_sig = topo_signature(sp)
         sim = Sim(sp, salt)
+        opts = dict(opts)
+        opts.setdefault("n_ops_hint", len(ops) if ops is not None else n_ops)
         mon = monitor_cls(sim, k, cfg, res, opts)
         mon.on_start()
         replay = ops is not None
